@@ -56,6 +56,57 @@ Proof.
     apply IH; [|exact Hno]. rewrite (unmarshal_attr_length _ _ _ _ _ H1). exact Hl.
 Qed.
 
+(* ---------- unknown child elements ---------- *)
+Variable unm : gotype -> value -> xml -> result value.
+
+Lemma route_length : forall fs vs path c vs',
+  route sch unm fs vs path c = Ok (inl (Some vs')) -> List.length vs' = List.length vs.
+Proof.
+  induction fs as [|f fs IH]; intros vs path c vs' H; destruct vs as [|v vs]; cbn [route] in H; try discriminate.
+  destruct (path_match sch f path (xname c)).
+  - destruct (unm (f_type f) v c); cbn [rbind] in H; [|discriminate]. injection H as <-. reflexivity.
+  - discriminate.
+  - destruct (route sch unm fs vs path c) as [[[vs''|]|p]|e] eqn:Hr; cbn [rbind] in H; try discriminate.
+    injection H as <-. cbn. f_equal. exact (IH _ _ _ _ Hr).
+Qed.
+
+Lemma route_nohit : forall fs vs path c,
+  (forall f, In f fs -> path_match sch f path (xname c) = PNone) ->
+  List.length fs = List.length vs ->
+  route sch unm fs vs path c = Ok (inl None).
+Proof.
+  induction fs as [|f fs IH]; intros vs path c Hno Hl; destruct vs as [|v vs]; try discriminate; [reflexivity|].
+  cbn [route]. rewrite (Hno f (or_introl eq_refl)).
+  rewrite IH; [reflexivity | intros g Hg; apply Hno; right; exact Hg | cbn in Hl; congruence].
+Qed.
+
+Lemma gkids_length : forall g fs vs p vs',
+  unmarshal_gkids sch unm fs vs p g = Ok vs' -> List.length vs' = List.length vs.
+Proof.
+  induction g as [|gc g IH]; intros fs vs p vs' H; cbn [unmarshal_gkids] in H.
+  - injection H as <-. reflexivity.
+  - destruct (route sch unm fs vs p gc) as [[[vs1|]|q]|e] eqn:Hr; cbn [rbind] in H; try discriminate.
+    + rewrite (IH _ _ _ _ H). exact (route_length _ _ _ _ _ Hr).
+    + exact (IH _ _ _ _ H).
+Qed.
+
+(* an element that no element field of the struct matches (an unknown element) can be inserted
+   anywhere among the children without changing what the decoder stores *)
+Lemma unknown_child_ignored_gen : forall k1 fs vs c k2,
+  (forall f, In f fs -> path_match sch f [] (xname c) = PNone) ->
+  List.length fs = List.length vs ->
+  unmarshal_kids sch unm fs vs [] false (k1 ++ c :: k2) = unmarshal_kids sch unm fs vs [] false (k1 ++ k2).
+Proof.
+  induction k1 as [|a k1 IH]; intros fs vs c k2 Hno Hl.
+  - cbn [app unmarshal_kids]. rewrite route_nohit by assumption. reflexivity.
+  - cbn [app unmarshal_kids].
+    destruct (route sch unm fs vs [] a) as [[[vs1|]|q]|e] eqn:Hr; cbn [rbind]; try reflexivity.
+    + apply IH; [exact Hno|]. rewrite (route_length _ _ _ _ _ Hr). exact Hl.
+    + apply IH; assumption.
+    + destruct (unmarshal_gkids sch unm fs vs q (xkids a)) as [vs1|e] eqn:Hg; cbn [rbind]; [|reflexivity].
+      apply IH; [exact Hno|]. rewrite (gkids_length _ _ _ _ _ Hg). exact Hl.
+Qed.
+
 End Ignore.
 
 Definition wrapped_node_doc : xml :=
